@@ -494,8 +494,9 @@ func listBoxWidget(c *reg.Ctx) {
 	// input classes, most specific defect-prone trait first
 	class := "listbox-vertical"
 	switch {
-	case horizontal && extend && padding == 0 && zeroWidth:
-		class = "listbox-horizontal-zerowidth-item"
+	case extend && ((horizontal && padding == 0 && zeroWidth) || width <= padding+1):
+		// ExtendStyle with possibly no room for the right spacing
+		class = "listbox-extendstyle-empty-spacing"
 	case ctl:
 		class = "listbox-ctl"
 	case horizontal:
